@@ -29,6 +29,7 @@ def expected_positions(t, prog):
     regs, out = [()], []
     for op in prog:
         c, rest = op[0], op[1:]
+        c = {"a": "f", "z": "l", "n": "s", "b": "p"}.get(c, c)      # the node-only routes reach the same positions
         a = rest.split(":")
         r = int(a[0]) if a[0] else 0
         src = regs[r] if r < len(regs) else None
